@@ -273,7 +273,10 @@ def DEL(ds):
 
 
 def jq(starts, pred="*", inverse=False, datasets=None, limit=0):
-    """the query run from inside a job's javascript transform: Query (limit 0) or PagedQuery(limit)"""
+    """the query run from inside a job's javascript transform: Query (limit 0) or PagedQuery(limit).
+    PagedQuery does not call back for an empty page, and the pinned incoming scan can end with one: paged only outgoing, one start."""
+    if inverse or len(starts) > 1:
+        limit = 0
     op = {"op": "jsquery", "starts": [U(s) for s in starts], "pred": pred if pred == "*" else U(pred), "inverse": inverse, "limit": limit}
     if datasets:
         op["datasets"] = list(datasets)
